@@ -113,6 +113,74 @@ def covering(ctx):
     return ev
 
 
+FOOTERS = [
+    ['REM  test in P2(1)/c', 'REM wR2 = 0.1005, GooF = S = 1.016, Restrained GooF = 1.016 for all data',
+     'REM R1 = 0.0400 for 1234 Fo > 4sig(Fo) and 0.0500 for all 2000 data', 'REM 100 parameters refined using 10 restraints'],
+    ['REM R1 = 0.0400 for 0 Fo > 4sig(Fo) and 0.0500 for all 0 data', 'REM 0 parameters refined using 0 restraints'],
+    ['REM R1 = 0.0400 for 1234 Fo > 4sig(Fo) and 0.0500 for all 2000 data', 'REM 0 parameters refined using 0 restraints'],
+    ['REM 12 parameters refined using 0 restraints', 'REM R1 = 0.0400 for 1234 Fo > 4sig(Fo) and 0.0500 for all 2000 data'],
+    ['REM wR2 = 0.1, GooF = S = 1.0, Restrained GooF = 1.0 for all data', 'REM R1 = for and'], ['REM Highest difference peak 0.5, deepest hole -0.3, 1-sigma level 0.05'],
+    ['REM R1 =', 'REM parameters refined', 'REM 5 parameters refined'], ['rem 0 parameters refined using 0 restraints', 'Rem R1 = 0.1 for 1 Fo > 4sig(Fo) and 0.2 for all 2 data'],
+]
+
+
+CONTEXT_FORMS = ['RESI 3HB 12', 'RESI 12 3HB', 'RESI TOL 1', 'RESI 1 TOL', 'RESI 5', 'RESI -1 TOL', 'RESI A:100 TOL', 'RESI 2 TOL 7', 'resi tol 3', 'RESI 0',
+                 'PART 1', 'PART -1', 'PART 2 21.0', 'PART 1 -21', 'part 2', 'PART 0', 'AFIX 137', 'AFIX 43 0.95', 'AFIX 66 1.39 11.0 0.05', 'afix 23', 'AFIX 0',
+                 'MOLE 2', 'EQIV $1 -x, 1-y, -z', 'EQIV $2 x+1/2, y, z', 'BASF 0.3 0.2', 'SUMP 1.0 0.01 1.0 2 1.0 3', 'SAME C1 > C2',
+                 'FLAT C1 > C2 O1 N1', 'SADI_3HB C1 O1 O1 N1', 'DFIX_* 1.5 C1 O1', 'SIMU $C', 'RIGU C1 > N1', 'HFIX 43 C1', 'ANIS $C', 'ANIS', 'CONF', 'BOND $H', 'HTAB', 'ACTA NOHKL',
+                 'LIST 4 ! comment', 'TEMP -173(2)', '+missing_include_file.txt']
+
+
+def context_forms(ctx):
+    """RESI / PART / AFIX and other instructions in the spellings of the manual, followed by atoms, in all three modes"""
+    ev = 0
+    for form in CONTEXT_FORMS:
+        for pos in (0, 2):
+            lines = HEAD + ATOMS[:pos] + [form] + ATOMS[pos:] + ['AFIX 0', 'PART 0', 'RESI 0'] + TAIL
+            text = '\n'.join(lines) + '\n'
+            models = []
+            for mode in MODES:
+                status, inner, shx = im.read_text(text, mode)
+                ev += 1
+                case = {'instruction': form, 'mode': mode, 'text': text}
+                if status != 'ok' or inner:
+                    common.add_violation(ctx, 'a valid instruction raises', case, 'no exception', status + ' / ' + str(inner))
+                    continue
+                names = [a.name for a in shx.atoms.all_atoms]
+                if names != ['C1', 'O1', 'N1', 'C2'] or shx.error_line_num != len(lines) - 1 or not shx.end:
+                    common.add_violation(ctx, 'atoms or END after a valid instruction are not reached', case, ['C1', 'O1', 'N1', 'C2'], names)
+                    continue
+                models.append((im.atoms_table(shx), im.instr_tokens(shx)))
+            if len(models) == 3 and not (models[0] == models[1] == models[2]):
+                common.add_violation(ctx, 'the model differs between quiet, verbose and debug mode', {'instruction': form, 'text': text}, 'identical', 'different')
+    return ev
+
+
+def footers(ctx):
+    """remarks in the form SHELXL writes behind the atoms (the library reads numbers out of them), with degenerate counts"""
+    ev = 0
+    for ft in FOOTERS:
+        for tail in (['HKLF 4'] + ft + ['END', 'WGHT 0.05 0.3', 'REM Highest difference peak 0.5, deepest hole -0.3, 1-sigma level 0.05', 'Q1 1 0.1 0.2 0.3 11.0 0.05 1.2'],
+                     ft + ['HKLF 4', 'END']):
+            lines = HEAD + ATOMS + tail
+            text = '\n'.join(lines) + '\n'
+            models = []
+            for mode in MODES:
+                status, inner, shx = im.read_text(text, mode)
+                ev += 1
+                case = {'mode': mode, 'text': text}
+                if status != 'ok' or inner:
+                    common.add_violation(ctx, 'a file with the remarks SHELXL writes behind the atoms raises', case, 'no exception', status + ' / ' + str(inner))
+                    continue
+                if shx.error_line_num != len(lines) - 1 or not shx.end:
+                    common.add_violation(ctx, 'parsing did not reach the last line (remarks behind the atoms)', case, len(lines) - 1, shx.error_line_num)
+                    continue
+                models.append((im.atoms_table(shx), im.instr_tokens(shx)))
+            if len(models) == 3 and not (models[0] == models[1] == models[2]):
+                common.add_violation(ctx, 'the model differs between quiet, verbose and debug mode', {'text': text}, 'identical', 'different')
+    return ev
+
+
 def random_files(ctx, n):
     rng = ctx.rng
     ev = 0
@@ -186,7 +254,7 @@ def run(ctx):
     else:
         ctx.discharged += 1
     ng, nacc = run_grid(ctx)
-    n1 = covering(ctx)
+    n1 = covering(ctx) + footers(ctx) + context_forms(ctx)
     n2 = random_files(ctx, 3000 if ctx.thorough() else 40)
     n3 = malformed(ctx, 150000 if ctx.thorough() else 1500)
     ctx.cov['evaluations'] = ng + n1 + n2 + n3
